@@ -337,6 +337,26 @@ theorem identify_fuel (res : List Atom) (edges : List (Int × Int)) (mods : List
     | keyError => rw [hc] at h; cases h
     | ok c => rw [hc] at h; cases h
 
+/-- the `PTM_atom` flag read from a later state is the one of the input -/
+theorem isFlagged_eq {orig : List Atom} (horig : (orig.map (·.key)).Nodup) {s : St} (hinv : Inv orig s)
+    {a0 : Atom} (ha0 : a0 ∈ orig) (hin : a0.key ∈ s.mol.keys) : isFlagged s.mol a0.key = a0.ptm := by
+  unfold isFlagged Mol.atom?
+  cases hf : s.mol.atoms.find? (fun a => a.key == a0.key) with
+  | none =>
+    exfalso
+    obtain ⟨b, hb, hkb⟩ := List.mem_map.1 hin
+    have := List.find?_eq_none.1 hf b hb
+    simp [hkb] at this
+  | some b =>
+    have hb : b ∈ s.mol.atoms := List.mem_of_find?_eq_some hf
+    have hkb : b.key = a0.key := by simpa using List.find?_some hf
+    have : imm b ∈ orig.map imm := hinv.subset (List.mem_map.2 ⟨b, hb, rfl⟩)
+    obtain ⟨b0, hb0, hib⟩ := List.mem_map.1 this
+    have hk : b0.key = a0.key := (congrArg Prod.fst hib).trans hkb
+    have : b0 = a0 := eq_of_key_eq horig hb0 ha0 hk
+    subst this
+    exact (congrArg (fun x => x.2.2) hib).symm
+
 /-- one iteration: frame facts -/
 theorem step_frame (mods : List Modif) (orig : List Atom) (s : St) (key : List Int)
     (groups : List Group) (given : List (List Placement)) (hinv : Inv orig s) :
@@ -362,7 +382,8 @@ theorem step_frame (mods : List Modif) (orig : List Atom) (s : St) (key : List I
   | outOfFuel => exact absurd hid hfuel
   | keyError rm =>
     rw [hid] at hb
-    refine ⟨_, rfl, ?_, ?_, Or.inl ⟨rm, _, rfl, rfl, rfl, mem_removeAtoms_keys s.mol rm, hb⟩⟩
+    refine ⟨_, rfl, ?_, ?_, Or.inl ⟨rm.filter (isFlagged s.mol), _, rfl, rfl, rfl,
+      mem_removeAtoms_keys s.mol _, fun x hx => hb x (List.mem_filter.1 hx).1⟩⟩
     · unfold Inv removeAtoms
       exact ((List.filter_sublist).map imm).trans hinv
     · refine ⟨?_, fun w h => List.mem_append_left _ h, ⟨_, rfl⟩⟩
